@@ -62,10 +62,14 @@ def unzipOne (dest : Path) (fs : FS) (e : Entry) : FS × Option UErr :=
   let t := target dest e.name
   let dirT := target dest e.name.dropLast
   if !inside dest t then (fs, some .escapes) else
-  match fs.mkdirAll dest dirT with
-  | none => (fs, some .ioError)                            -- a path component is a regular file
+  -- EnsureDirExists starts with `os.Open(dir)`, which succeeds on ANY existing path — also on a regular
+  -- file: nothing is created then, and it is `os.Create` that fails unless the target IS that file
+  let made := if fs.isFile dirT then some fs else fs.mkdirAll dest dirT
+  match made with
+  | none => (fs, some .ioError)                            -- a proper path component is a regular file
   | some fs1 =>
     if t = dest ∨ fs1.isDir t then (fs1, some .ioError)    -- os.Create on a directory
+    else if fs.isFile dirT && t != dirT then (fs1, some .ioError)   -- the parent of the target is a regular file
     else ({ fs1 with files := fs1.files.filter (·.1 != t) ++ [(t, e.content)] }, none)
 
 /-- Go: `UnzipToFolder(zip, destDir)`: stops at the first error; returns the file system reached -/
